@@ -41,19 +41,10 @@ pub fn check(e: &OpeningHoursExpression, hol: &HolSpec, r: &mut Rng) -> Result<b
             return Err(format!("normalising on another thread gives {:?} instead of {:?}", from_thread.to_string(), n1.to_string()));
         }
     }
-    // the normal form is printable and reparseable to an equivalent expression (C06 oracle):
-    // evaluated through OpeningHours::parse of its print-out vs the print-out of the reparsed value
-    let printed = guarded(|| n1.to_string()).map_err(|p| format!("printing the normal form panicked: {p}"))?;
-    let reparsed = lib_parse(&printed).map_err(|err| format!("the normal form prints as {printed:?}, which does not parse back: {err}"))?;
-    // normalising the reparsed normal form must not change it either (a second pass must not
-    // re-split a rule after going through text)
-    let n3 = guarded(|| reparsed.clone().normalize()).map_err(|p| format!("normalize panicked: {p}"))?;
-    let a = super::c02::build(&printed, hol).ok_or_else(|| format!("normal form {printed:?} rejected"))?;
-    let b = super::c02::build(&n3.to_string(), hol).ok_or_else(|| format!("re-normalised form {:?} rejected", n3.to_string()))?;
-    let days = crate::evalcmp::comparison_days(&[&n1, &n3], hol, r, 32, 16, 0);
-    if let Some((_, diff)) = crate::evalcmp::first_difference(&a, &b, &days, true)? {
-        return Err(format!("the normal form {printed:?}, once reparsed and normalised again ({:?}), evaluates differently {diff}", n3.to_string()));
-    }
+    // the normal form is printable and reparseable to an equivalent expression (C06 oracle): the
+    // value held by `OpeningHours::normalize()` against the value parsed from its print-out
+    let (printed, _) = super::c06::normal_form_roundtrip(e, hol, r, 0)?;
+    let _ = printed;
     Ok(n1 != *e)
 }
 
